@@ -109,6 +109,7 @@ void hooks_set_cache_drop (long period, long offset);
 long hooks_cache_lookups ();
 long hooks_cache_drops ();
 void hooks_set_fail_sink (int fd);
+void hooks_set_scon_fatal (bool fatal);
 
 // ---------------------------------------------------------------- render
 
@@ -131,6 +132,7 @@ std::string render_stack (zw_stack const *s);
 
 void apply_environment (plan const &p);
 void init_vocabularies ();
+void prebuild_vocabulary ();
 
 int dwgrep_main (int argc, char *argv[]);
 
